@@ -110,7 +110,14 @@ ValidTimes == {T1}
 \* value that is not representable as it is; it may be refused or normalised, it must not appear in the response as written
 LenientTimes == {"2021-03-04T5:06:07Z", "2021-03-04T05:06:07,25Z"}
 \* seconds since the epoch -> the time (times are named by their RFC 3339 UTC text)
-SecsTime == [ i0 |-> "1970-01-01T00:00:00Z", i42 |-> "1970-01-01T00:00:42Z" ]
+SecsTime == [ i0 |-> "1970-01-01T00:00:00Z", i42 |-> "1970-01-01T00:00:42Z", i1 |-> "1970-01-01T00:00:01Z", im1 |-> "1969-12-31T23:59:59Z",
+              i2p24p1 |-> "1970-07-14T04:20:17Z", i2p31m1 |-> "2038-01-19T03:14:07Z", im2p31 |-> "1901-12-13T20:45:52Z",
+              i2p31 |-> "2038-01-19T03:14:08Z", im2p31m1 |-> "1901-12-13T20:45:51Z", i2p32p1 |-> "2106-02-07T06:28:17Z",
+              f1p5 |-> "1970-01-01T00:00:01.5Z", fm0p5 |-> "1969-12-31T23:59:59.5Z" ]
+\* numbers that are no time an RFC 3339 text can name (year 0000 to 9999), as seconds since the epoch
+TimeOut == {"i2p53", "i2p53p1", "i2p63m1", "im2p63", "i2p63", "ff32max", "f1e39", "f1e300", "nan", "pinf", "ninf"}
+\* time.Time values outside those years (named, not written)
+FarTimes == {"year12345", "yearMinus5"}
 
 -----------------------------------------------------------------------------
 (* values and types *)
@@ -198,7 +205,7 @@ ScalarIn(n, v) ==
     [] n = "Time" ->
          IF v.k = "str" THEN (IF v.s \in ValidTimes THEN Ok(Tim(v.s)) ELSE Err(<<>>))
          ELSE IF v.k \in {"time", "anytime"} THEN Ok(v)
-         ELSE IF v.k = "num" THEN May(IF v.p \in DOMAIN SecsTime THEN Tim(SecsTime[v.p]) ELSE AnyTime)
+         ELSE IF v.k = "num" THEN (IF v.p \in TimeOut THEN Err(<<>>) ELSE May(IF v.p \in DOMAIN SecsTime THEN Tim(SecsTime[v.p]) ELSE AnyTime))
          ELSE Err(<<>>)
     [] OTHER -> Err(<<>>)
 
@@ -352,7 +359,7 @@ ScalarCoIn(n, v, cx) ==
     [] n = "Time" ->
          IF v.k = "str" THEN (IF v.s \in ValidTimes THEN R(TRUE, Tim(v.s)) ELSE Fail)
          ELSE IF v.k \in {"time", "anytime"} THEN R(TRUE, v)
-         ELSE IF v.k = "num" /\ v.g \in {"float64", "int64"}
+         ELSE IF v.k = "num" /\ v.g \in {"float64", "int64"} /\ v.p \notin TimeOut
               THEN R(TRUE, IF v.p \in DOMAIN SecsTime THEN Tim(SecsTime[v.p]) ELSE AnyTime)
          ELSE Fail
     [] OTHER -> Fail
@@ -503,9 +510,9 @@ LeafOutB(S, n, gv) ==
          ELSE IF gv.k = "str" /\ gv.s \in DOMAIN BoolStr THEN MayJ(Bool(BoolStr[gv.s]))
          ELSE ErrJ
     [] n = "Time" ->                       \* an RFC 3339 string
-         IF gv.k = "time" THEN Str(gv.s)
+         IF gv.k = "time" THEN (IF gv.s \in FarTimes THEN ErrJ ELSE Str(gv.s))
          ELSE IF gv.k = "str" THEN (IF gv.s \in ValidTimes THEN Str(gv.s) ELSE IF gv.s \in LenientTimes THEN MayJ(AnyTime) ELSE ErrJ)
-         ELSE IF gv.k = "num" THEN MayJ(AnyTime)
+         ELSE IF gv.k = "num" THEN (IF gv.p \in TimeOut THEN ErrJ ELSE MayJ(IF gv.p \in DOMAIN SecsTime THEN Str(SecsTime[gv.p]) ELSE AnyTime))
          ELSE ErrJ
     [] OTHER ->                            \* enum: the name of a declared value
          IF IsEnum(S, n) /\ gv.k \in {"sym", "str"} /\ gv.s \in S.enums[n] THEN Str(gv.s) ELSE ErrJ
@@ -593,9 +600,10 @@ LeafCoOut(S, n, gv, dv) ==
          ELSE IF gv.k = "str" THEN (IF gv.s \in DOMAIN BoolStr THEN Bool(BoolStr[gv.s]) ELSE ParseFail(gv, dv))
          ELSE ErrJ
     [] n = "Time" ->
-         IF gv.k = "time" THEN Str(gv.s)
+         IF gv.k = "time" THEN (IF gv.s \in FarTimes THEN ErrJ ELSE Str(gv.s))
          ELSE IF gv.k = "str" THEN (IF gv.s \in ValidTimes THEN Str(gv.s) ELSE IF gv.s \in LenientTimes THEN AnyTime ELSE ParseFail(gv, dv))
-         ELSE IF gv.k = "num" /\ gv.g \in {"float64", "int64"} THEN AnyTime
+         ELSE IF gv.k = "num" /\ gv.g \in {"float64", "int64"} /\ gv.p \notin TimeOut
+              THEN (IF gv.p \in DOMAIN SecsTime THEN Str(SecsTime[gv.p]) ELSE AnyTime)
          ELSE ErrJ
     [] OTHER ->
          IF IsEnum(S, n) /\ gv.k \in {"sym", "str"} /\ (gv.s \in S.enums[n] \/ "EnumUndeclaredOut" \in dv) THEN Str(gv.s) ELSE ErrJ
